@@ -2,7 +2,7 @@
 import copy
 from trees import *
 
-RULE = ("seeded random validated models over all constructor classes (depth<=3 quick / <=4 thorough, boolean/integer/"
+RULE = ("(40% of the interpretations give some leaf a value outside its declared bounds) seeded random validated models over all constructor classes (depth<=3 quick / <=4 thorough, boolean/integer/"
         "int16 leaves, shared sub-objects), each with total leaf interpretations rendered as int / tuple / Bounds and "
         "optional constant overrides of sub-proposition ids; non-trivial = the model has a compound child or an integer "
         "leaf; distinct = distinct (model, interpretation) pairs")
@@ -14,7 +14,9 @@ def do_case(ctx, inp):
     a, I = inp["ast"], {k: tuple(v) for k, v in inp["I"].items()}
     o = build(a)
     t = snap(o)
-    ctx.case(inp, nontrivial=depth(t) > 1 or any(b != (0, 1) for b in leaves_of(t).values()), tags=tags_of(t))
+    lv0 = leaves_of(t)
+    oob = any(k in lv0 and not (lv0[k][0] <= v[0] <= lv0[k][1]) for k, v in I.items())
+    ctx.case(inp, nontrivial=depth(t) > 1 or any(b != (0, 1) for b in lv0.values()), tags=tags_of(t) | ({'value-outside-declared-bounds'} if oob else set()))
     rI = render_interp(ctx.rng, I)
     res = copy.deepcopy(o).evaluate_propositions(rI)
     top = copy.deepcopy(o).evaluate(rI)
@@ -37,5 +39,6 @@ def run(ctx):
     for _ in range(n_models):
         a, o, t = gen_valid(ctx.rng, ctx.quick)
         for _ in range(4):
-            I = gen_interp(ctx.rng, t, total=True, ranges=False)
+            # values may lie outside a leaf's declared bounds: the interpretation wins (variable.evaluate's documented behaviour)
+            I = gen_interp(ctx.rng, t, total=True, ranges=False, in_bounds=ctx.rng.random() < 0.6)
             do_case(ctx, {"ast": a, "I": {k: list(v) for k, v in I.items()}})
